@@ -716,3 +716,48 @@ def np_fromiter(I, a, k):
 def install_c13(EXTERNALS, _fn):
     EXTERNALS.setdefault('numpy.argmax', _fn('np.argmax', np_argmax))
     EXTERNALS.setdefault('numpy.fromiter', _fn('np.fromiter', np_fromiter))
+
+
+# ------------------------------------------------------------------ (C16) additions: np.ravel, np.concatenate (what _calc_residual needs)
+
+def np_ravel(I, a, k):
+    """np.ravel(x): the elements of an array-like (an array, or a list/tuple of equal-shape arrays / of scalars) as a
+    vector, row-major.  numpy returns a view of an array argument where it can: modelled as a read-only snapshot."""
+    _need_R(I)
+    _no_kwargs('np.ravel', k)
+    if len(a) != 1:
+        raise OutOfSubset('np.ravel with order')
+    x = a[0]
+    if isinstance(x, NDArray):
+        return x.snapshot((len(x.items),), list(x.items))
+    if ops.is_number(x):
+        return NDArray((1,), [elem(I, x)])
+    shape, items, _all_int = _nested(I, x)
+    if _all_int and items:
+        raise OutOfSubset('integer numpy arrays are not modelled')
+    return NDArray((len(items),), [elem(I, v) for v in items])
+
+
+def np_concatenate(I, a, k):
+    """np.concatenate((v1, v2, ...)) of vectors (axis 0): a new vector"""
+    _need_R(I)
+    _no_kwargs('np.concatenate', k)
+    if len(a) != 1 or not isinstance(a[0], (tuple, PList)):
+        raise OutOfSubset('np.concatenate: only a tuple / list of vectors, default axis')
+    items = []
+    parts = list(ops.seq_items(a[0]))
+    if not parts:
+        I.raise_py('ValueError', 'need at least one array to concatenate')
+    for p in parts:
+        if ops.is_number(p):
+            I.raise_py('ValueError', 'zero-dimensional arrays cannot be concatenated')
+        arr = as_array(I, p)
+        if len(arr.shape) != 1:
+            raise OutOfSubset('np.concatenate of arrays of shape %r' % (arr.shape,))
+        items.extend(arr.items)
+    return NDArray((len(items),), items)
+
+
+def install_c16(EXTERNALS, _fn):
+    EXTERNALS.setdefault('numpy.ravel', _fn('np.ravel', np_ravel))
+    EXTERNALS.setdefault('numpy.concatenate', _fn('np.concatenate', np_concatenate))
